@@ -694,6 +694,7 @@ func TestC08(t *testing.T) {
 		c13Explore(t, c, k)
 	}
 	c13TestName = "TestC13"
+	c08RequestReuse(t, c)
 	// peers with different compression habits, one after the other through a handler that supports two algorithms
 	{
 		d, co := XorAlg(0xA1)
